@@ -176,9 +176,16 @@ def gen_layered(rng, nvars=None, per_layer=None, dom_max=None, cost_lo=-5, cost_
     else:
         # admissible rule with values: b' dominates b when H(b) <= H(b') (coordinate 0) [and tag equal for weakened]
         I.domkind = 1; I.usevalue = 1
-        I.ncoord = 1 if dk == 1 else 2
+        I.ncoord = 1 if dk in (1, 3) else 2
         I.key = []; I.coords = []
         R = I.reach()
+        if dk == 4:
+            # depth-independent rule for depth-free tables: one key, coordinate j = value-to-go of the state AT DEPTH j (for every j), with values;
+            # admissible at equal depths; comparing states of different depths with it is NOT (what a depth mix-up in the store would do)
+            I.ncoord = n + 1
+            for b in range(I.nbase):
+                I.key.append(100); I.coords.append([(H[k][b] if H[k][b] is not None else -1000) for k in range(n + 1)])
+            return I
         for b in range(I.nbase):
             ks = [k for k in range(n + 1) if b in R[k]]
             if len(ks) != 1:
@@ -186,7 +193,8 @@ def gen_layered(rng, nvars=None, per_layer=None, dom_max=None, cost_lo=-5, cost_
             k = ks[0]
             if H[k][b] is None:
                 I.key.append(-1); I.coords.append([0] * I.ncoord); continue
-            I.key.append(k if rng.chance(3, 4) else 100 + rng.below(2))
+            # dk == 3: ONE key for every state of every depth (a legal rule: the depth is an explicit argument of the checker)
+            I.key.append(100 if dk == 3 else k if rng.chance(3, 4) else 100 + rng.below(2))
             c = [H[k][b]]
             if I.ncoord == 2: c.append(rng.range(0, 1))
             I.coords.append(c)
